@@ -548,7 +548,7 @@ class CSSMatch(_DocumentNav):
 
         self.assert_valid_input(scope)
         self.tag = scope
-        self.cached_meta_lang = []  # type: list[tuple[str, str]]
+        self.cached_meta_lang = []  # type: list[tuple[bs4.Tag | None, str | None]]
         self.cached_default_forms = []  # type: list[tuple[bs4.Tag, bs4.Tag]]
         self.cached_indeterminate_forms = []  # type: list[tuple[bs4.Tag, str, bool]]
         self.selectors = selectors
@@ -1250,13 +1250,15 @@ class CSSMatch(_DocumentNav):
                 break
 
         # Use cached meta language.
+        cached = False
         if found_lang is None and self.cached_meta_lang:
             for cache in self.cached_meta_lang:
                 if root is cache[0]:
                     found_lang = cache[1]
+                    cached = True
 
         # If we couldn't find a language, and the document is HTML, look to meta to determine language.
-        if found_lang is None and (not self.is_xml or (has_html_namespace and root and root.name == 'html')):
+        if found_lang is None and not cached and (not self.is_xml or (has_html_namespace and root and root.name == 'html')):
             # Find head
             found = False
             for tag in ('html', 'head'):
@@ -1282,12 +1284,13 @@ class CSSMatch(_DocumentNav):
                                 content = v
                             if c_lang and content:
                                 found_lang = content
-                                self.cached_meta_lang.append((cast(str, root), cast(str, found_lang)))
+                                self.cached_meta_lang.append((root, cast(str, found_lang)))
                                 break
                     if found_lang is not None:
                         break
                 if found_lang is None:
-                    self.cached_meta_lang.append((cast(str, root), ''))
+                    # Remember that this document has no `meta` language ("not found" is not "found empty").
+                    self.cached_meta_lang.append((root, None))
 
         # If we determined a language, compare.
         if found_lang is not None:
